@@ -2,7 +2,7 @@ from checks import searchfam
 
 
 def run(ctx):
-    searchfam.run_family(ctx, 1500, 100000)
+    searchfam.run_family(ctx, 1500, 60000)
     ctx.rule = ("scenario = seeded random network (2..N vertices on a milli-degree lattice, multigraph with self loops, "
                 "metric and non-metric lengths) x query x algorithm x cost/access/frontier/limit configuration biased "
                 "towards this property; distinct by hash of the scenario; non-trivial = at least two successful edge "
